@@ -5,6 +5,7 @@ import (
 	"strings"
 
 	"verifsim/kernel"
+	"verifsim/peer"
 )
 
 // ---------------------------------------------------------------------------------------------
@@ -28,6 +29,19 @@ func genC11(seed uint64, run int, tier string) Scenario {
 		sc.Sub = "C12"
 		// half of them escalate inside the on-open hook, as platform definitions do
 		sc.OnOpenAcquire = r.IntN(2) == 0
+		if r.IntN(3) == 0 {
+			// ... and some through a real platform definition whose network-on-open sequence first
+			// writes a login secret (redacted) to a gate in front of the device
+			sc.OnOpenAcquire = false
+			sc.PlatLogin = genSecret(r, "lg-")
+			gate := &peer.Mode{Name: "gate", Prompt: "Password: ", NoEcho: true, Cmds: map[string]*peer.Reply{sc.PlatLogin: {Next: sc.Dev.Start}}}
+			gate.Default = &peer.Reply{Out: []peer.Tok{{S: "% Login invalid"}}, Next: "gate"}
+			gate.Empty = gate.Default
+			sc.Dev.Modes = append(sc.Dev.Modes, gate)
+			sc.Dev.Start = "gate"
+			sc.Dev.Banner = []peer.Tok{{S: "Restricted system."}, {S: sc.Dev.NL}}
+			sc.Class += "/platform"
+		}
 	}
 	sc.Prop = "C11"
 	sc.Log = true
